@@ -107,6 +107,7 @@ theorem invS_step (s : Sys) (h0 : Inv0 s) (h : InvS s) (op : Op) : InvS (s.step 
     split
     · exact h
     · exact invS_of_sub s _ h rfl rfl (setNode_snaps s i _ (fun p hp => ⟨i, hp⟩))
+  | regq => exact h
   | stop =>
     show InvS (s.stepStop).1
     unfold stepStop
